@@ -391,6 +391,12 @@ func master(p *Property, tier string, n int, name func(int) string, only string,
 						}
 						r = Result{Index: i, Case: name(i), Crashed: true, Note: "worker died: " + tail}
 						crashed = true
+						if strings.Contains(whole, "fatal error: stack overflow") && libFrames(whole) >= 10 {
+							// unbounded recursion inside the code under test (a visit over a structure that contains itself, a
+							// self-call that never bottoms out): the Go runtime ends the process, which cannot be recovered from
+							r.Crashed = false
+							r.Viols = []Viol{{Sig: p.ID + "/runaway-recursion", Msg: fmt.Sprintf("a call into the code under test recursed until the goroutine stack limit was reached (fatal error: stack overflow) in case %s; innermost frames:\n%s", name(i), firstFrames(whole, 12)), Replay: map[string]any{"case": name(i)}}}
+						}
 						if p.MemLimitGB > 0 && (strings.Contains(whole, "out of memory") || strings.Contains(whole, "cannot allocate memory")) {
 							// the driver calls the code under test directly on tiny inputs: exhausting 24 GB there is runaway allocation
 							r.Crashed = false
@@ -632,6 +638,31 @@ func master(p *Property, tier string, n int, name func(int) string, only string,
 		fmt.Printf("  case %s\n  %s\n", u.Case, msg)
 	}
 	return 1
+}
+
+// libFrames counts the stack frames of a crash dump that belong to the library under test (not to the drivers, which
+// live in packages named verif...).
+func libFrames(dump string) int {
+	n := 0
+	for _, l := range strings.Split(dump, "\n") {
+		if strings.HasPrefix(l, "github.com/fogfish/golem/") && !strings.HasPrefix(l, "github.com/fogfish/golem/verif") {
+			n++
+		}
+	}
+	return n
+}
+
+func firstFrames(dump string, k int) string {
+	var out []string
+	for _, l := range strings.Split(dump, "\n") {
+		if len(out) < k && !strings.HasPrefix(l, "\t") && strings.Contains(l, "(") && strings.Contains(l, ".") && !strings.HasPrefix(l, "runtime") {
+			if len(l) > 160 {
+				l = l[:160]
+			}
+			out = append(out, "   "+l)
+		}
+	}
+	return strings.Join(out, "\n")
 }
 
 func doReplay(props []Property, path string) int {
